@@ -22,6 +22,8 @@ def main(pid, tier, repo=None):
         _c05.rule_alpha_region(ctx)      # D43 / D48 panicked (row index out of range) as well as mis-blending
         _c06.rule_base_region(ctx)       # D41 / D47: out-of-range subgrid of the base planes
         limit.run(ctx, LIB_CRATES)
+        from . import c04 as _c04
+        _c04.rule_hybrid_config(ctx)      # the hybrid-uint limits (shift amounts), decided by evaluation instead of by spelling
         taintalloc.run(ctx, LIB_CRATES)
         block.run_block(ctx, LIB_CRATES)
         block.run_eof_bitstream(ctx)
